@@ -69,7 +69,7 @@ class C01(Property):
         written = [p for p in PATHS]
         ops = [("new", 3)]
         if handles:
-            ops += [("write", 5), ("copy", 1)]
+            ops += [("write", 5), ("copy", 1), ("mutate", 2)]
         ops += [("load", 4)]
         op = rng.weighted(ops)
         cfg = world.cfg
@@ -89,6 +89,9 @@ class C01(Property):
         if op == "copy":
             world.model["n"] += 1
             return {"op": "copy", "sess": sess, "src": rng.pick(handles), "h": "m%d" % world.model["n"]}
+        if op == "mutate":
+            return {"op": "mutate", "sess": sess, "h": rng.pick(handles), "how": rng.pick(["scale", "renumber"]),
+                    "factor": rng.pick([2.0, 0.5, 4.0])}
         world.model["n"] += 1
         return {"op": "load", "sess": sess, "path": rng.pick(written), "h": "m%d" % world.model["n"],
                 "api": rng.pick(["Motl.load", "EmMotl", "EmMotl.read_in"]), "io": True,
@@ -141,6 +144,24 @@ class C01(Property):
             if not out.ok:
                 raise Violation("copy_raised", "copy:%s" % out.describe(), "Motl.load(motl) raised %r" % (out.exc,))
             sess[step["h"]] = {"obj": out.value, "model": src["model"].copy()}
+            return []
+        if op == "mutate":
+            # an in-place edit of a live list (the user keeps working with it): a list loaded from a file must not
+            # share its table with anything a later load of the same file returns
+            if step["h"] not in sess:
+                raise Skip()
+            h = sess[step["h"]]
+            obj = h["obj"]
+            if step["how"] == "scale":
+                out = world.call(step["sess"], obj.scale_coordinates, step["factor"])
+                for c in ("x", "y", "z", "shift_x", "shift_y", "shift_z"):
+                    h["model"][:, MOTL_COLS.index(c)] *= step["factor"]
+            else:
+                out = world.call(step["sess"], obj.renumber_particles)
+                h["model"][:, MOTL_COLS.index("subtomo_id")] = np.arange(1, len(h["model"]) + 1)
+            if not out.ok:
+                raise Violation("mutate_raised", "mutate:%s" % out.describe(), "%s raised %r" % (step["how"], out.exc))
+            world.probes["in_place_edit"] += 1
             return []
         if op == "write":
             if step["h"] not in sess:
